@@ -109,7 +109,7 @@ func checkC05(c *core.Ctx) {
 		if altered && bass && keych {
 			c.Nontrivial(dt)
 		}
-		if i%300 == 0 {
+		if c.WantSample() {
 			c.Sample(map[string]any{"degree_text": short(dt, 300), "note_text": short(st, 300), "key": start})
 		}
 	})
